@@ -27,6 +27,7 @@ pub fn check(tier: Tier) -> Check {
         ));
     }
     Check {
+        also_rel: false,
         property: "C05",
         level: "model_checking",
         rule: "all event sequences (operation starts, conformant acknowledgements in every order with distinguishing content, delayed / spurious polls as deviations) up to the stated depth and deviation bound; non-trivial = an execution in which at least one acknowledgement completed an operation".into(),
